@@ -76,6 +76,12 @@ type WaitGroup struct {
 }
 
 func (w *WaitGroup) Add(d int) {
+	if d > 0 {
+		// registering new work is an atomic step of its own: another thread may run between
+		// the decision to start the work and its registration (Done is not made a
+		// scheduling point: it only ever enables waiters)
+		apoint(w)
+	}
 	w.n += d
 	if w.n < 0 {
 		if S != nil && S.aborting {
